@@ -42,6 +42,28 @@ type Rec struct {
 	NoGid   bool
 	// Pre, when non-nil, runs at the start of every Encode (observer hook).
 	Pre func()
+
+	holdMu sync.Mutex
+	hold   chan struct{}
+}
+
+// Hold makes every Encode that starts from now on block until Release.
+func (r *Rec) Hold() {
+	r.holdMu.Lock()
+	if r.hold == nil {
+		r.hold = make(chan struct{})
+	}
+	r.holdMu.Unlock()
+}
+
+// Release lets held Encode calls go on.
+func (r *Rec) Release() {
+	r.holdMu.Lock()
+	if r.hold != nil {
+		close(r.hold)
+		r.hold = nil
+	}
+	r.holdMu.Unlock()
 }
 
 func NewRec() *Rec { return &Rec{} }
@@ -63,6 +85,12 @@ func (r *Rec) Encode(v any) error {
 	}
 	if r.Gate != nil {
 		<-r.Gate
+	}
+	r.holdMu.Lock()
+	h := r.hold
+	r.holdMu.Unlock()
+	if h != nil {
+		<-h
 	}
 	c := Call{Seq: seq, Gid: gid}
 	if p, ok := v.(*auditevent.AuditEvent); ok {
